@@ -64,6 +64,8 @@ type pktIn struct {
 	H    hdrIn `json:"h"`
 	PLen int   `json:"plen"`
 	Fill int   `json:"fill"`
+	// legacy padding form (H.Padding set, H.PadSize 0): the last payload byte is Legacy-1 (the count)
+	Legacy int `json:"legacy,omitempty"`
 }
 
 type respIn struct {
@@ -98,6 +100,15 @@ type memberIn struct {
 	Var    int        `json:"var,omitempty"`   // option variant
 	CErr   int        `json:"cerr,omitempty"`  // Close error of a mock / cc estimator: 0 nil, id, negative = wrapped id
 	Sub    []memberIn `json:"sub,omitempty"`   // kind 16: nested chain
+	// function-valued options (0 = none of them; old replay files):
+	//   packetdump (10, 11): bit 13 set; bits 0..7 = RTCP packet kinds rejected by RTCPPerPacketFilter
+	//   (order of rtcpKinds), bit 8 RTPFilter rejects odd payload types, bit 9 RTCPFilter rejects
+	//   batches of 3 and more, bit 10 custom text formatters, bit 11 binary formatters, bit 12 the
+	//   binary RTCP formatter fails for PLI
+	//   nack generator / responder (1, 2): 1 = streams filter accepts every stream, 2 = rejects every stream
+	//   report receiver / sender, rfc8888, stats (3, 4, 7, 9): 1 = custom clock function
+	//   flexfec (13): 1 = explicit encoder factory
+	Opt int `json:"opt,omitempty"`
 }
 
 type cfgIn struct {
@@ -119,6 +130,8 @@ type caseIn struct {
 	CReads  []readIn   `json:"creads"`
 	CWrites []cwriteIn `json:"cwrites"`
 	Nacks   [][]uint16 `json:"nacks,omitempty"` // after the writes: NACK feedback read through the chain
+	// the mock member directly below the (single) responder taps the responder's retransmissions
+	Inject bool `json:"inject,omitempty"`
 	Note    string     `json:"note,omitempty"`
 }
 
@@ -159,6 +172,9 @@ func (p pktIn) payload() []byte {
 	b := make([]byte, p.PLen)
 	for i := range b {
 		b[i] = byte(p.Fill*31 + i*7 + (i>>8)*13)
+	}
+	if p.Legacy > 0 && len(b) > 0 {
+		b[len(b)-1] = byte(p.Legacy - 1)
 	}
 
 	return b
@@ -229,7 +245,71 @@ func (t *table) rtp(h *rtp.Header, payload []byte, c cfgIn) int {
 		return t.add(cq.T(hdrTerm(&hh), cq.T("-1", "-1")))
 	}
 
-	return t.add(cq.T(hdrTerm(h), cq.T(cq.Z(int64(t.payID(payload))), cq.Z(int64(len(payload))))))
+	// payload id = 256 * (interning number) + last payload byte (identical bytes <=> identical id)
+	last := 0
+	if len(payload) > 0 {
+		last = int(payload[len(payload)-1])
+	}
+
+	return t.add(cq.T(hdrTerm(h), cq.T(cq.Z(int64(256*t.payID(payload)+last)), cq.Z(int64(len(payload))))))
+}
+
+// content id of one RTCP packet (its marshalled bytes; -1 if it does not marshal)
+func (t *table) rtcpOne(raw []byte) int64 {
+	if raw == nil {
+		return -1
+	}
+
+	return int64(t.payID(append([]byte("rtcp:"), raw...)))
+}
+
+func (t *table) rtcpIDs(snap [][]byte) []int64 {
+	out := make([]int64, 0, len(snap))
+	for _, r := range snap {
+		out = append(out, t.rtcpOne(r))
+	}
+
+	return out
+}
+
+// RTCP batch by content: kinds of its packets, id interned over the packets' bytes
+func (t *table) rtcpBatch(snap [][]byte) int {
+	key := []byte("batch:")
+	kinds := []int64{}
+	for _, r := range snap {
+		key = append(key, byte(len(r)>>8), byte(len(r)))
+		key = append(key, r...)
+		kinds = append(kinds, kindOfRaw(r))
+	}
+
+	return t.rtcp(kinds, 100000+t.payID(key))
+}
+
+func snapRTCP(pkts []rtcp.Packet) [][]byte {
+	out := make([][]byte, 0, len(pkts))
+	for _, p := range pkts {
+		var raw []byte
+		if p != nil {
+			if b, err := p.Marshal(); err == nil {
+				raw = b
+			}
+		}
+		out = append(out, raw)
+	}
+
+	return out
+}
+
+func kindOfRaw(raw []byte) int64 {
+	if len(raw) < 2 {
+		return 299
+	}
+	pk, err := rtcp.Unmarshal(raw)
+	if err != nil || len(pk) != 1 {
+		return 299
+	}
+
+	return kindOf(pk[0])
 }
 
 // RTCP compound packet: "header" lists the packet types
@@ -241,9 +321,19 @@ func (t *table) rtcp(kinds []int64, id int) int {
 
 type markerKey struct{}
 
+type injKey struct{}
+
 type call struct {
 	h       rtp.Header
 	payload []byte
+	// the objects the writer was handed (re-read later: aliasing)
+	hp *rtp.Header
+	pp []byte
+}
+
+type ccall struct {
+	pkts []rtcp.Packet // the slice object the innermost writer received
+	snap [][]byte      // its content at the time of the call
 }
 
 type transport struct {
@@ -256,17 +346,21 @@ type transport struct {
 	sentinels map[int]error
 	// RTCP writer
 	cscript map[int][]respIn
-	ccalls  map[int][][]rtcp.Packet
+	ccalls  map[int][]ccall
 	casync  [][]rtcp.Packet
+	inj     map[int][]call // calls that carry the tap's tag (retransmissions of the tapped responder)
 }
 
 func (t *transport) Write(h *rtp.Header, payload []byte, a interceptor.Attributes) (int, error) {
 	t.mu.Lock()
 	defer t.mu.Unlock()
-	c := call{h: h.Clone(), payload: append([]byte{}, payload...)}
+	c := call{h: h.Clone(), payload: append([]byte{}, payload...), hp: h, pp: payload}
 	op, ok := a[markerKey{}].(int)
 	if !ok {
 		t.async = append(t.async, c)
+		if id, tagged := a[injKey{}].(int); tagged {
+			t.inj[id] = append(t.inj[id], c)
+		}
 
 		return h.MarshalSize() + len(payload), nil
 	}
@@ -294,7 +388,7 @@ func (w rtcpTransport) Write(pkts []rtcp.Packet, a interceptor.Attributes) (int,
 		return 0, nil
 	}
 	j := len(t.ccalls[op])
-	t.ccalls[op] = append(t.ccalls[op], pkts)
+	t.ccalls[op] = append(t.ccalls[op], ccall{pkts: pkts, snap: snapRTCP(pkts)})
 	if j < len(t.cscript[op]) {
 		r := t.cscript[op][j]
 
@@ -320,6 +414,9 @@ type mock struct {
 	closed, unbL, unbR     int
 	wcount                 int
 	cerr                   error
+	// tap: this mock sits directly below the responder and records what the responder injects
+	tapOn bool
+	taps  []call
 }
 
 func (m *mock) BindLocalStream(_ *interceptor.StreamInfo, w interceptor.RTPWriter) interceptor.RTPWriter {
@@ -328,6 +425,15 @@ func (m *mock) BindLocalStream(_ *interceptor.StreamInfo, w interceptor.RTPWrite
 			m.mu.Lock()
 			m.wcount++
 			m.mu.Unlock()
+		} else if m.tapOn {
+			m.mu.Lock()
+			id := len(m.taps)
+			m.taps = append(m.taps, call{h: h.Clone(), payload: append([]byte{}, p...)})
+			m.mu.Unlock()
+			if a == nil {
+				a = interceptor.Attributes{}
+			}
+			a[injKey{}] = id
 		}
 
 		return w.Write(h, p, a)
@@ -430,6 +536,10 @@ func factoryOf(m memberIn, b *built, idx int) (interceptor.Factory, error) { //n
 		case 3:
 			opts = append(opts, nack.GeneratorSize(512))
 		}
+		if m.Opt == 1 || m.Opt == 2 {
+			accept := m.Opt == 1
+			opts = append(opts, nack.GeneratorStreamsFilter(func(*interceptor.StreamInfo) bool { return accept }))
+		}
 
 		return nack.NewGeneratorInterceptor(opts...)
 	case 2:
@@ -443,14 +553,26 @@ func factoryOf(m memberIn, b *built, idx int) (interceptor.Factory, error) { //n
 		case 2:
 			opts = append(opts, nack.ResponderSize(32768))
 		}
+		if m.Opt == 1 || m.Opt == 2 {
+			accept := m.Opt == 1
+			opts = append(opts, nack.ResponderStreamsFilter(func(*interceptor.StreamInfo) bool { return accept }))
+		}
 
 		return nack.NewResponderInterceptor(opts...)
 	case 3:
-		return report.NewReceiverInterceptor(report.ReceiverInterval(tick), report.WithReceiverLoggerFactory(lf))
+		ropts := []report.ReceiverOption{report.ReceiverInterval(tick), report.WithReceiverLoggerFactory(lf)}
+		if m.Opt == 1 {
+			ropts = append(ropts, report.ReceiverNow(stepClock()))
+		}
+
+		return report.NewReceiverInterceptor(ropts...)
 	case 4:
 		opts := []report.SenderOption{report.SenderInterval(tick), report.WithSenderLoggerFactory(lf)}
 		if m.Var%2 == 1 {
 			opts = append(opts, report.SenderUseLatestPacket())
+		}
+		if m.Opt == 1 {
+			opts = append(opts, report.SenderNow(stepClock()))
 		}
 
 		return report.NewSenderInterceptor(opts...)
@@ -459,17 +581,26 @@ func factoryOf(m memberIn, b *built, idx int) (interceptor.Factory, error) { //n
 	case 6:
 		return twcc.NewHeaderExtensionInterceptor()
 	case 7:
-		return rfc8888.NewSenderInterceptor(rfc8888.SendInterval(tick), rfc8888.WithLoggerFactory(lf))
+		fopts := []rfc8888.Option{rfc8888.SendInterval(tick), rfc8888.WithLoggerFactory(lf)}
+		if m.Opt == 1 {
+			fopts = append(fopts, rfc8888.SenderNow(stepClock()))
+		}
+
+		return rfc8888.NewSenderInterceptor(fopts...)
 	case 8:
 		return rtpfb.NewInterceptor(rtpfb.WithLoggerFactory(lf))
 	case 9:
-		f, err := stats.NewInterceptor(stats.WithLoggerFactory(lf),
+		sopts := []stats.Option{}
+		if m.Opt == 1 {
+			sopts = append(sopts, stats.SetNowFunc(stepClock()))
+		}
+		f, err := stats.NewInterceptor(append(sopts, stats.WithLoggerFactory(lf),
 			stats.SetRecorderFactory(func(ssrc uint32, clockRate float64) stats.Recorder {
 				sr := &startedRecorder{Recorder: stats.C01NewRecorder(ssrc, clockRate, lf), ch: make(chan struct{})}
 				b.started = append(b.started, sr.ch)
 
 				return sr
-			}))
+			}))...)
 		if err != nil {
 			return nil, err
 		}
@@ -478,6 +609,14 @@ func factoryOf(m memberIn, b *built, idx int) (interceptor.Factory, error) { //n
 		return f, nil
 	case 10, 11:
 		opts := []packetdump.PacketDumperOption{packetdump.WithLoggerFactory(lf)}
+		if m.Opt != 0 {
+			opts = append(opts, dumpOpts(m.Opt)...)
+			if m.Kind == 10 {
+				return packetdump.NewReceiverInterceptor(opts...)
+			}
+
+			return packetdump.NewSenderInterceptor(opts...)
+		}
 		switch m.Var % 4 {
 		case 0:
 			opts = append(opts, packetdump.RTPWriter(io.Discard), packetdump.RTCPWriter(io.Discard))
@@ -504,8 +643,13 @@ func factoryOf(m memberIn, b *built, idx int) (interceptor.Factory, error) { //n
 	case 12:
 		return intervalpli.NewReceiverInterceptor(intervalpli.GeneratorInterval(tick), intervalpli.WithLoggerFactory(lf))
 	case 13:
-		return flexfec.NewFecInterceptor(flexfec.NumMediaPackets(uint32(m.Params[0])), //nolint:gosec
-			flexfec.NumFECPackets(uint32(m.Params[1]))) //nolint:gosec
+		xopts := []flexfec.FecOption{flexfec.NumMediaPackets(uint32(m.Params[0])), //nolint:gosec
+			flexfec.NumFECPackets(uint32(m.Params[1]))} //nolint:gosec
+		if m.Opt == 1 {
+			xopts = append(xopts, flexfec.FECEncoderFactory(flexfec.FlexEncoder03Factory{}))
+		}
+
+		return flexfec.NewFecInterceptor(xopts...)
 	case 14:
 		ce := closeErr(b, m.CErr)
 
@@ -534,6 +678,72 @@ func factoryOf(m memberIn, b *built, idx int) (interceptor.Factory, error) { //n
 	}
 
 	return nil, fmt.Errorf("unknown kind %d", m.Kind) //nolint:err113
+}
+
+// a clock given as a function-valued option: starts now, advances 1 ms per call
+func stepClock() func() time.Time {
+	var mu sync.Mutex
+	t0 := time.Now()
+
+	return func() time.Time {
+		mu.Lock()
+		defer mu.Unlock()
+		t0 = t0.Add(time.Millisecond)
+
+		return t0
+	}
+}
+
+var rtcpKinds = []int{200, 201, 202, 203, 205, 206, 215, 211}
+
+var errFormat = errors.New("formatter refuses") //nolint:err113
+
+// function-valued packetdump options selected by the bits of opt (see memberIn.Opt)
+func dumpOpts(opt int) []packetdump.PacketDumperOption {
+	rejected := func(p rtcp.Packet) bool {
+		k := kindOf(p)
+		for i, kk := range rtcpKinds {
+			if int64(kk) == k && opt&(1<<i) != 0 {
+				return true
+			}
+		}
+
+		return false
+	}
+	opts := []packetdump.PacketDumperOption{
+		packetdump.RTPWriter(io.Discard), packetdump.RTCPWriter(io.Discard),
+		packetdump.RTCPPerPacketFilter(func(p rtcp.Packet) bool { return !rejected(p) }),
+	}
+	if opt&(1<<8) != 0 {
+		opts = append(opts, packetdump.RTPFilter(func(p *rtp.Packet) bool { return p.PayloadType%2 == 0 }))
+	}
+	if opt&(1<<9) != 0 {
+		opts = append(opts, packetdump.RTCPFilter(func(p []rtcp.Packet) bool { return len(p) < 3 }))
+	}
+	if opt&(1<<10) != 0 {
+		opts = append(opts,
+			packetdump.RTPFormatter(func(p *rtp.Packet, _ interceptor.Attributes) string {
+				return fmt.Sprintf("%d/%d/%d\n", p.SSRC, p.SequenceNumber, len(p.Payload))
+			}),
+			packetdump.RTCPFormatter(func(p []rtcp.Packet, _ interceptor.Attributes) string {
+				return fmt.Sprintf("%d packets\n", len(p))
+			}))
+	}
+	if opt&(1<<11) != 0 || opt&(1<<12) != 0 {
+		opts = append(opts,
+			packetdump.RTPBinaryFormatter(func(p *rtp.Packet, _ interceptor.Attributes) ([]byte, error) {
+				return p.Header.Marshal()
+			}),
+			packetdump.RTCPBinaryFormatter(func(p rtcp.Packet, _ interceptor.Attributes) ([]byte, error) {
+				if opt&(1<<12) != 0 && kindOf(p) == 206 {
+					return nil, errFormat
+				}
+
+				return p.Marshal()
+			}))
+	}
+
+	return opts
 }
 
 // ---------------------------------------------------------------- RTCP packets
@@ -600,8 +810,28 @@ type result struct {
 	ctrs     [][3]int64
 	counts   [][3]int64
 	flags    [4]int64
+	aobs     []*aob
+	iobs     []iob
+	respIdx  int // flat index of the tapped responder (-1 none)
 	panicked string
 	buckets  []string
+}
+
+// aliasing observation of one object the harness handed to the chain (kind: 0 RTCP write batch,
+// 1 RTP write header+payload, 2 RTP read buffer, 3 RTCP read buffer, 4 RTCP packets cached in the
+// attributes a Read returned): deep copy taken before the call; the caller's object after the call
+// returned / after Close; the object the transport was handed, re-read after the call / after Close
+type aob struct {
+	kind, op               int
+	cp, cret, cend         []int64
+	tret, tend             []int64
+	recheckC, recheckT     func() []int64
+}
+
+// one retransmission the tapped responder emitted and what reached the transport for it
+type iob struct {
+	q     int
+	calls []int
 }
 
 func errIDs(err error, sent map[int]error) []int64 {
@@ -699,9 +929,29 @@ func runCase(in caseIn) (res *result) { //nolint:cyclop,gocyclo,gocognit,maintid
 	if err != nil {
 		panic(err)
 	}
+	res.respIdx = -1
+	if in.Inject {
+		fl := flatten(in.Members)
+		nresp, mi := 0, 0
+		for i, m := range fl {
+			if m.Kind == 2 {
+				nresp++
+			}
+			if m.Kind == 15 {
+				if i+1 < len(fl) && fl[i+1].Kind == 2 {
+					b.mocks[mi].tapOn = true
+					res.respIdx = i + 1
+				}
+				mi++
+			}
+		}
+		if nresp != 1 {
+			panic("inject: exactly one responder expected")
+		}
+	}
 	tr := &transport{
 		cfg: c, script: map[int][]respIn{}, calls: map[int][]call{}, sentinels: b.sentinels,
-		cscript: map[int][]respIn{}, ccalls: map[int][][]rtcp.Packet{}, sent: map[uint16][][]byte{},
+		cscript: map[int][]respIn{}, ccalls: map[int][]ccall{}, sent: map[uint16][][]byte{}, inj: map[int][]call{},
 	}
 	getSent := func(id int) error {
 		if id == 0 {
@@ -769,11 +1019,25 @@ func runCase(in caseIn) (res *result) { //nolint:cyclop,gocyclo,gocognit,maintid
 			res.flags[0]++
 		}
 		o := wobs{pi: res.tbl.rtp(&orig, keep, c), n: n, errs: errIDs(werr, b.sentinels)}
+		hp, pp := &h, payload
+		ao := &aob{kind: 1, op: i, cp: []int64{int64(o.pi)}}
+		ao.recheckC = func() []int64 { return []int64{int64(res.tbl.rtp(hp, pp, c))} }
+		ao.recheckT = func() []int64 { return ao.cp }
 		tr.mu.Lock()
 		for _, cl := range tr.calls[i] {
 			cl := cl
 			o.calls = append(o.calls, res.tbl.rtp(&cl.h, cl.payload, c))
+			fec := c.FecSSRC != 0 && c.FecPT != 0 && cl.h.SSRC == c.FecSSRC && cl.h.PayloadType == c.FecPT
+			if !fec && ao.tret == nil {
+				ao.recheckT = func() []int64 { return []int64{int64(res.tbl.rtp(cl.hp, cl.pp, c))} }
+				ao.tret = ao.recheckT()
+			}
 		}
+		ao.cret = ao.recheckC()
+		if ao.tret == nil {
+			ao.tret = ao.cp
+		}
+		res.aobs = append(res.aobs, ao)
 		tr.sent[orig.SequenceNumber] = append(tr.sent[orig.SequenceNumber], keep)
 		tr.mu.Unlock()
 		res.wops = append(res.wops, o)
@@ -801,6 +1065,26 @@ func runCase(in caseIn) (res *result) { //nolint:cyclop,gocyclo,gocognit,maintid
 			}
 		}
 	}
+	// ---- what the tapped responder injected and what reached the transport for it
+	for _, mk := range b.mocks {
+		if !mk.tapOn {
+			continue
+		}
+		mk.mu.Lock()
+		taps := append([]call{}, mk.taps...)
+		mk.mu.Unlock()
+		tr.mu.Lock()
+		for id, q := range taps {
+			q := q
+			o := iob{q: res.tbl.rtp(&q.h, q.payload, c)}
+			for _, cl := range tr.inj[id] {
+				cl := cl
+				o.calls = append(o.calls, res.tbl.rtp(&cl.h, cl.payload, c))
+			}
+			res.iobs = append(res.iobs, o)
+		}
+		tr.mu.Unlock()
+	}
 	// ---- RTP / RTCP reads
 	doReads := func(ops []readIn, rd interceptor.RTPReader, rtcpSide bool) []robs {
 		out := []robs{}
@@ -808,6 +1092,10 @@ func runCase(in caseIn) (res *result) { //nolint:cyclop,gocyclo,gocognit,maintid
 			buf[i] = 0xEE
 		}
 		for i, op := range ops {
+			// every read gets a buffer of its own (re-read after Close); it starts with what the
+			// previous read left behind, as if the application had reused one buffer
+			buf = append([]byte{}, buf...)
+			buf := buf
 			var raw []byte
 			var kinds []int64
 			switch {
@@ -873,6 +1161,16 @@ func runCase(in caseIn) (res *result) { //nolint:cyclop,gocyclo,gocognit,maintid
 			if !bytes.Equal(buf[:m], raw) || !bytes.Equal(buf[m:], snap[m:]) {
 				o.bytes = false
 			}
+			akind := 2
+			if rtcpSide {
+				akind = 3
+			}
+			atRet := append([]byte{}, buf...)
+			whole := func() []int64 { return []int64{int64(res.tbl.payID(buf))} }
+			ab := &aob{kind: akind, op: i, cp: []int64{int64(res.tbl.payID(atRet))}, recheckC: whole}
+			ab.cret, ab.tret = ab.cp, ab.cp
+			ab.recheckT = func() []int64 { return ab.cp }
+			res.aobs = append(res.aobs, ab)
 			// independent parse of what was delivered
 			o.di = -1
 			if rtcpSide {
@@ -940,29 +1238,28 @@ func runCase(in caseIn) (res *result) { //nolint:cyclop,gocyclo,gocognit,maintid
 	// ---- RTCP writes
 	for i, w := range in.CWrites {
 		pk := []rtcp.Packet{}
-		ks := []int64{}
-		for _, k := range w.Kinds {
-			pk = append(pk, rtcpOf(k, c, i))
-			ks = append(ks, int64(k))
+		for j, k := range w.Kinds {
+			pk = append(pk, rtcpOf(k, c, 10*i+j))
 		}
+		keep := snapRTCP(pk) // deep copy of the batch
 		n, werr := cw.Write(pk, interceptor.Attributes{markerKey{}: i})
-		o := wobs{pi: res.tbl.rtcp(ks, 2000+i), n: n, errs: errIDs(werr, b.sentinels)}
+		o := wobs{pi: res.tbl.rtcpBatch(keep), n: n, errs: errIDs(werr, b.sentinels)}
+		own := pk
+		ao := &aob{kind: 0, op: i, cp: res.tbl.rtcpIDs(keep)}
+		ao.recheckC = func() []int64 { return res.tbl.rtcpIDs(snapRTCP(own)) }
+		ao.recheckT = func() []int64 { return ao.cp }
 		tr.mu.Lock()
-		for _, cl := range tr.ccalls[i] {
-			// identical slice contents (same packet pointers) <=> same id
-			same := len(cl) == len(pk)
-			for j := range cl {
-				if same && cl[j] != pk[j] {
-					same = false
-				}
-			}
-			if same {
-				o.calls = append(o.calls, o.pi)
-			} else {
-				o.calls = append(o.calls, res.tbl.rtcp([]int64{-1}, 3000+i))
+		for j, cl := range tr.ccalls[i] {
+			// what the transport was handed, by content, at the time of the call
+			o.calls = append(o.calls, res.tbl.rtcpBatch(cl.snap))
+			if j == 0 {
+				got := cl.pkts
+				ao.recheckT = func() []int64 { return res.tbl.rtcpIDs(snapRTCP(got)) }
 			}
 		}
 		tr.mu.Unlock()
+		ao.cret, ao.tret = ao.recheckC(), ao.recheckT()
+		res.aobs = append(res.aobs, ao)
 		res.cwops = append(res.cwops, o)
 	}
 
@@ -1003,6 +1300,10 @@ func runCase(in caseIn) (res *result) { //nolint:cyclop,gocyclo,gocognit,maintid
 	res.is = append(res.is, [2]int64{99999, b2z(cerr != nil && errors.Is(cerr, sentinel(99999)))})
 	for _, m := range b.mocks {
 		res.ctrs = append(res.ctrs, [3]int64{int64(m.closed), int64(m.unbL), int64(m.unbR)})
+	}
+	// ---- every handed-in object once more, now that Close has drained the background goroutines
+	for _, ao := range res.aobs {
+		ao.cend, ao.tend = ao.recheckC(), ao.recheckT()
 	}
 	// ---- case-level checks on asynchronous traffic
 	tr.mu.Lock()
@@ -1079,10 +1380,21 @@ func decoyMentioned(p rtcp.Packet) bool {
 
 // ---------------------------------------------------------------- printing
 
-func memberTerm(m memberIn) string {
+// parameters the model needs: responder [DisableCopy; RTX configured; streams filter mode],
+// nack generator [streams filter mode], packetdump [option bits], others as generated
+func memberTerm(m memberIn, c cfgIn) string {
 	ps := []int64{}
 	for _, p := range m.Params {
 		ps = append(ps, int64(p))
+	}
+	switch m.Kind {
+	case 2:
+		for len(ps) < 1 {
+			ps = append(ps, 0)
+		}
+		ps = append(ps[:1], b2z(c.RtxSSRC != 0 && c.RtxPT != 0), int64(m.Opt))
+	case 1, 10, 11:
+		ps = []int64{int64(m.Opt)}
 	}
 
 	return cq.T(cq.Z(int64(m.Kind)), cq.LZ(ps))
@@ -1141,7 +1453,7 @@ func (r *result) toCase() cq.Case {
 	cfg := cq.T(cq.Z(int64(c.SSRC)), cq.Z(sid), cq.B(c.Nack), cq.B(fecOn), cq.Z(int64(c.FecSSRC)), cq.Z(int64(c.FecPT)))
 	ms := []string{}
 	for _, m := range flatten(in.Members) {
-		ms = append(ms, memberTerm(m))
+		ms = append(ms, memberTerm(m, c))
 	}
 	wops := []string{}
 	for i, o := range r.wops {
@@ -1183,9 +1495,19 @@ func (r *result) toCase() cq.Case {
 
 		return cq.L(out)
 	}
+	as := []string{}
+	for _, a := range r.aobs {
+		as = append(as, cq.T(cq.Z(int64(a.kind)), cq.Z(int64(a.op)), cq.LZ(a.cp),
+			cq.T(cq.LZ(a.cret), cq.LZ(a.cend)), cq.T(cq.LZ(a.tret), cq.LZ(a.tend))))
+	}
+	is2 := []string{}
+	for _, o := range r.iobs {
+		is2 = append(is2, cq.T(cq.Z(int64(r.respIdx)), cq.Z(int64(o.q)), cq.LZ(ints(o.calls))))
+	}
 	term := cq.T(cfg, cq.L(ms), cq.L(r.tbl.terms), cq.L(wops), cq.L(rterm(in.Reads, r.rops)),
 		cq.L(rterm(in.CReads, r.crops)), cq.L(cwops), cq.L(cms),
-		cq.T(cq.B(r.closeNil), cq.L(is), tri(r.ctrs)), tri(r.counts), cq.LZ(r.flags[:]))
+		cq.T(cq.B(r.closeNil), cq.L(is), tri(r.ctrs)), tri(r.counts), cq.LZ(r.flags[:]),
+		cq.L(as), cq.L(is2))
 	triv := len(flatten(in.Members)) == 0 || len(in.Writes)+len(in.Reads)+len(in.CReads)+len(in.CWrites) == 0
 
 	return cq.Case{Coq: term, JSON: in, Buckets: r.buckets, Trivial: triv}
